@@ -134,6 +134,51 @@ Rep3 == {RFinal, RMore, ROneway, RInfo, RHErr}
 F3 == LET Tr == {<<a, b, c>> : a \in Rep3, b \in Rep3, c \in {RFinal, RInfo, Partial(1)}} IN
       {Sc(t, SegClass(t, k), e) : t \in Tr, k \in 1..NSegClass, e \in Ends}
 
+(* ---------------------------------------------------------------------- *)
+(* F4 (C04): one call with an arbitrary method string, then a probe call    *)
+(* showing that the connection stayed usable.                               *)
+RECURSIVE Strs(_, _)
+Strs(A, n) == IF n = 0 THEN {<<>>} ELSE LET S == Strs(A, n - 1) IN S \cup {Append(s, a) : s \in S, a \in A}
+
+(* near misses of a name: one character deleted, inserted, replaced; dots added *)
+Near(nm) ==
+  {nm, nm \o <<".">>, <<".">> \o nm, nm \o <<".", ".">>}
+   \cup {SubSeq(nm, 1, i - 1) \o SubSeq(nm, i + 1, Len(nm)) : i \in 1..Len(nm)}
+   \cup {SubSeq(nm, 1, i) \o <<x>> \o SubSeq(nm, i + 1, Len(nm)) : i \in 0..Len(nm), x \in {"x", "."}}
+   \cup {[nm EXCEPT ![i] = "x"] : i \in 1..Len(nm)}
+
+RegPool == {<<"a",".","b">>, <<"a",".","b",".","c">>, <<"a">>, <<"a",".","b",".","c",".","d">>, <<"a",".","U1">>}
+MethodStrings ==
+  Strs({".", "a", "b", "c"}, IF Rich THEN 5 ELSE 4)
+   \cup UNION {Near(r) : r \in RegPool \cup {OVS}}
+   \cup UNION {{n \o <<".", "M">>, n \o <<".">> \o GETINFO, n \o <<".">> \o GETDESC} : n \in UNION {Near(r) : r \in RegPool \cup {OVS}}}
+   \cup {OVS \o <<".">> \o m : m \in Near(GETINFO)}
+ProbeFinal == Fr("call", <<"a",".","M">>, NoFl, "absent", <<St("final", <<>>, "")>>, "nil", 1)
+F4 == {Sc(<<Fr("call", m, NoFl, "known", <<St("final", <<>>, "")>>, "nil", 1), RInfo>>, <<2, 2>>, "halfclose") : m \in MethodStrings}
+TRegA == {<<"a",".","b">>, <<"a",".","b",".","c">>}
+TRegB == {<<"a">>, <<"a",".","b",".","c",".","d">>, <<"a",".","U1">>}
+TRegC == {}
+
+(* F5 (C12): every error-name string a handler may try to send *)
+ErrNameStrings ==
+  Strs({".", "a", "b"}, IF Rich THEN 5 ELSE 4)
+   \cup Near(OVS) \cup {n \o <<".", "E">> : n \in Near(OVS)}
+   \cup {OVS \o <<".">> \o SubSeq(GETINFO, 1, k) : k \in 0..3}
+   \cup {<<"a", ".", "U1", ".", "E">>, <<"U1", ".", "E">>, <<"a", ".", "U1">>}
+F5 == {Sc(<<Fr("call", TgtA, fl, "absent", <<St("err", n, ""), St("final", <<>>, "")>>, "nil", 1)>>, <<2>>, "halfclose")
+          : n \in ErrNameStrings, fl \in {NoFl, OnewayFl}}
+
+(* F6 (C10): garbage, wrong shapes, partial frames; the first frame is cut in *)
+(* two symbols so that the driver can place the cut at every byte offset      *)
+G1 == {Wide(f) : f \in {RFinal, RMore, RInfo, RHErr, RUnreg} \cup (Garbage(1) \ {REmpty})} \cup {REmpty}
+G2 == {RFinal, RInfo, RBad, Partial(1), REmpty, RNull}
+F6 == LET Pairs == {<<a, b>> : a \in G1, b \in G2} \cup {<<Partial(2)>>} \cup {<<a>> : a \in G1}
+          CompsUpTo == UNION {Comps(k) : k \in 0..5}
+          PS == {x \in Pairs \X CompsUpTo : SumSeq(x[2]) <= NSym(x[1])} IN
+      {Sc(x[1], x[2], e) : x \in PS, e \in Ends}
+(* the well-behaved neighbour connection of C10 *)
+Probe == Sc(<<RInfo, RFinal, RInfo>>, <<2, 2, 2>>, "halfclose")
+
 All == F1 \cup F2 \cup F3
 
 (* a dozen scenarios for the multi-connection model *)
